@@ -24,8 +24,9 @@ func handWorld() *gen.World {
 	a := &gen.Service{URL: "http://a", Defs: []*gen.Def{node,
 		{Kind: "OBJECT", Name: "Human", Ifaces: []string{"Node"}, Fields: []gen.Field{{Name: "id", Type: "ID!"}, {Name: "name", Type: "String", Args: []gen.Arg{{Name: "a", Type: "Int"}}}, {Name: "friend", Type: "Human"}, {Name: "pets", Type: "[Pet!]!"}}},
 		{Kind: "OBJECT", Name: "Pet", Ifaces: []string{"Node"}, Fields: []gen.Field{{Name: "id", Type: "ID!"}, {Name: "kind", Type: "String"}}},
-		{Kind: "OBJECT", Name: "Query", Fields: []gen.Field{{Name: "humans", Type: "[Human!]!"}, {Name: "me", Type: "Human"}, {Name: "x", Type: "String"}, {Name: "node", Args: []gen.Arg{{Name: "id", Type: "ID!"}}, Type: "Node"}}},
+		{Kind: "OBJECT", Name: "Query", Fields: []gen.Field{{Name: "humans", Type: "[Human!]!"}, {Name: "me", Type: "Human"}, {Name: "x", Type: "String"}, {Name: "beings", Type: "[Being!]!"}, {Name: "node", Args: []gen.Arg{{Name: "id", Type: "ID!"}}, Type: "Node"}}},
 		{Kind: "OBJECT", Name: "Mutation", Fields: []gen.Field{{Name: "x", Type: "String"}}},
+		{Kind: "UNION", Name: "Being", UTypes: []string{"Human", "Pet"}},
 	}}
 	node2 := &gen.Def{Kind: "INTERFACE", Name: "Node", Fields: []gen.Field{{Name: "id", Type: "ID!"}}}
 	b := &gen.Service{URL: "http://b", Defs: []*gen.Def{node2,
@@ -44,6 +45,7 @@ func handWorld() *gen.World {
 	ent("p2", "Pet", map[string]fake.Val{"kind": fake.Str("dog"), "owner": fake.Ref("h1"), "weight": fake.Int(9)})
 	w.Store.Roots["Query"]["humans"] = fake.List(fake.Ref("h1"), fake.Ref("h2"))
 	w.Store.Roots["Query"]["me"] = fake.Ref("h1")
+	w.Store.Roots["Query"]["beings"] = fake.List(fake.Ref("h1"), fake.Ref("p1"), fake.Ref("h2"))
 	w.Store.Roots["Query"]["x"] = fake.Str("query-x")
 	w.Store.Roots["Query"]["pets"] = fake.List(fake.Ref("p1"), fake.Ref("p2"))
 	w.Store.Roots["Mutation"]["x"] = fake.Str("mutation-x")
